@@ -87,15 +87,19 @@ structure SamplerCfg where
   unionAccept : AcceptKind
   /-- `DifferenceRegion.genericSampler` rejects exactly when `regionB._trueContainsPoint(point)` -/
   diffRejectsInB : Bool
-  /-- the point-set sampler filters the candidates by `o.containsPoint` -/
-  ballFiltersByContains : Bool
+  deriving DecidableEq, Repr
+
+/-- by which test the sampler installed by `PointSetRegion.intersect` filters its candidates -/
+inductive BallFilter
+  | containsPoint       -- `o.containsPoint(p)` (ignores z for polygonal regions)
+  | trueContainsPoint   -- `o._trueContainsPoint(p)`
+  | none                -- no test
   deriving DecidableEq, Repr
 
 /-- the configuration the theorems are proved for -/
 def SamplerCfg.reference : SamplerCfg :=
   { interDimOp := .le, interChecksAll := true, unionDimOp := .eq, unionWeight := .size,
-    unionCount := .allRegs, unionAccept := .invCount, diffRejectsInB := true,
-    ballFiltersByContains := true }
+    unionCount := .allRegs, unionAccept := .invCount, diffRejectsInB := true }
 
 /-- A region as seen by the generic samplers. -/
 structure Operand (α : Type) where
@@ -105,8 +109,12 @@ structure Operand (α : Type) where
   dim : Option Nat
   /-- `size` (`none` = `None` or infinite) -/
   size : Option Rat
-  /-- `_trueContainsPoint` -/
+  /-- `_trueContainsPoint` (what the generic samplers test) -/
   contains : α → Bool
+  /-- `containsPoint` (what the point-set sampler tests; ignores z for polygonal regions) -/
+  containsPt : α → Bool := contains
+  /-- `convertToFootprint(region).containsPoint` (what the `containsPoint` of a composed region tests on its operands) -/
+  footprint : α → Bool := containsPt
 
 /-- a primitive region of dimension `d` made of the equal-measure atoms `atoms`, each of measure `μ` -/
 def primOperand [DecidableEq α] (d : Nat) (μ : Rat) (atoms : List α) : Operand α :=
@@ -189,8 +197,8 @@ def diffSampler (cfg : SamplerCfg) (a b : Operand α) : Option (SubPMF α) :=
 
 /-- `possibles` = points of the set inside the candidate ball; `intersection` = those the other
     region contains; `random.choice` among them (rejection when there are none). -/
-def ballSampler (cfg : SamplerCfg) (points : List α) (inBall : α → Bool) (contains : α → Bool) : SubPMF α :=
-  uniformList ((points.filter inBall).filter fun p => if cfg.ballFiltersByContains then contains p else true)
+def ballSampler (points : List α) (inBall : α → Bool) (contains : α → Bool) : SubPMF α :=
+  uniformList ((points.filter inBall).filter contains)
 
 /-! ### bounding-box rejection loop of PolygonalRegion.uniformPointInner -/
 
@@ -207,8 +215,9 @@ def rejectionLoop (box : List α) (inTri : α → Bool) : Nat → SubPMF α
 inductive Instr (α : Type)
   /-- point set / grid: atoms (with the duplicates the code keeps), and its `containsPoint` as an explicit atom list -/
   | points (atoms : List α) (member : List α)
-  /-- a region used only through `dimensionality`, `size`, `_trueContainsPoint` (never sampled in the discrete fragment) -/
-  | opaque (dim : Option Nat) (size : Option Rat) (member : List α)
+  /-- a region used only through `dimensionality`, `size`, `_trueContainsPoint`, `containsPoint` and its footprint's
+      `containsPoint`, each given as an explicit atom list (never sampled in the discrete fragment) -/
+  | opaque (dim : Option Nat) (size : Option Rat) (member memberPt memberFp : List α)
   | inter (args : List Nat)
   | union (args : List Nat)
   | diff (a b : Nat)
@@ -217,31 +226,40 @@ inductive Instr (α : Type)
 
 def undefinedOperand : Operand α := { sampler := none, dim := none, size := none, contains := fun _ => false }
 
-def evalInstr [DecidableEq α] (cfg : SamplerCfg) (env : List (Operand α)) : Instr α → Operand α
+/-- a composed region: `_trueContainsPoint` is the default (`containsPoint`), which tests the operands' footprints -/
+def composed (sampler : Option (SubPMF α)) (c : α → Bool) : Operand α :=
+  { sampler := sampler, dim := none, size := none, contains := c, containsPt := c, footprint := c }
+
+def evalInstr [DecidableEq α] (cfg : SamplerCfg) (bf : BallFilter) (env : List (Operand α)) : Instr α → Operand α
   | .points atoms member =>
     { sampler := some (uniformList atoms), dim := some 0, size := some (atoms.length : Rat),
       contains := fun x => decide (x ∈ member) }
-  | .opaque d s member => { sampler := none, dim := d, size := s, contains := fun x => decide (x ∈ member) }
+  | .opaque d s member memberPt memberFp =>
+    { sampler := none, dim := d, size := s, contains := fun x => decide (x ∈ member),
+      containsPt := fun x => decide (x ∈ memberPt), footprint := fun x => decide (x ∈ memberFp) }
   | .inter args =>
     let ops := args.map fun i => env.getD i undefinedOperand
-    { sampler := interSampler cfg ops, dim := none, size := none, contains := fun x => ops.all (·.contains x) }
+    composed (interSampler cfg ops) fun x => ops.all (·.footprint x)
   | .union args =>
     let ops := args.map fun i => env.getD i undefinedOperand
-    { sampler := unionSampler cfg ops, dim := none, size := none, contains := fun x => ops.any (·.contains x) }
+    composed (unionSampler cfg ops) fun x => ops.any (·.containsPt x)
   | .diff a b =>
     let oa := env.getD a undefinedOperand
     let ob := env.getD b undefinedOperand
-    { sampler := diffSampler cfg oa ob, dim := none, size := none,
-      contains := fun x => oa.contains x && !ob.contains x }
+    composed (diffSampler cfg oa ob) fun x => oa.footprint x && !ob.footprint x
   | .ball pts inBall other =>
     let op := env.getD pts undefinedOperand
     let oo := env.getD other undefinedOperand
     let atoms := (op.sampler.getD []).map Prod.fst
-    { sampler := some (ballSampler cfg atoms (fun x => decide (x ∈ inBall)) oo.contains),
-      dim := none, size := none, contains := fun x => op.contains x && oo.contains x }
+    let test : α → Bool := match bf with
+      | .containsPoint => oo.containsPt
+      | .trueContainsPoint => oo.contains
+      | .none => fun _ => true
+    composed (some (ballSampler atoms (fun x => decide (x ∈ inBall)) test))
+      fun x => op.footprint x && oo.footprint x
 
-def evalProgram [DecidableEq α] (cfg : SamplerCfg) (prog : List (Instr α)) : List (Operand α) :=
-  prog.foldl (fun env i => env ++ [evalInstr cfg env i]) []
+def evalProgram [DecidableEq α] (cfg : SamplerCfg) (bf : BallFilter) (prog : List (Instr α)) : List (Operand α) :=
+  prog.foldl (fun env i => env ++ [evalInstr cfg bf env i]) []
 
 /-- merge equal outcomes (for printing) -/
 def collect [DecidableEq α] (p : SubPMF α) : SubPMF α :=
@@ -341,16 +359,14 @@ inductive CircOp | divide | multiply
   deriving DecidableEq, Repr
 
 /-- shape of `SectorRegion._makeCircumcircle` (regenerated from the source):
-    `if c > thr: r = radius <op> (k * c) ; centre = center.offsetRadially(r, heading)` else the whole disc -/
+    `if c > thr: r = radius <op> (k * c) ; centre = center.offsetRadially(r, heading)` else `(center, radius)` -/
 structure SectorCircCfg where
   thr : Rat
   k : Rat
   op : CircOp
-  /-- the wide branch returns `(center, radius)` -/
-  wideIsDisc : Bool
   deriving DecidableEq, Repr
 
-def SectorCircCfg.reference : SectorCircCfg := { thr := 1/2, k := 2, op := .divide, wideIsDisc := true }
+def SectorCircCfg.reference : SectorCircCfg := { thr := 1/2, k := 2, op := .divide }
 
 /-- radius and distance of the centre along the heading direction (0 = at the sector's centre) -/
 def sectorCirc (cfg : SectorCircCfg) (R c : Rat) : Rat × Rat :=
@@ -382,6 +398,12 @@ structure CircTable where
   deriving DecidableEq, Repr
 
 def CircTable.reference : CircTable := { circle := .radius, rect := .hypotHalves, mesh := .hypotHalves }
+
+/-- radius² of a candidate ball as a function of the table entry -/
+def radiusSq : RadiusKind → (radius hw hl hz : Rat) → Rat
+  | .radius, r, _, _, _ => r * r
+  | .hypotHalves, _, hw, hl, hz => hw * hw + hl * hl + hz * hz
+  | .other, _, _, _, _ => 0
 
 /-- table of the z written by each planar sampler -/
 structure ZTable where
